@@ -500,7 +500,7 @@ Proof.
 Qed.
 
 (* ------------------------------------------------------------------ the theorems of Props/C10.v *)
-Lemma reachable_inv : forall st, reachable st -> Inv st.
+Lemma reachable_inv : forall st, reachable_clean st -> Inv st.
 Proof. intros st [h [Hok ->]]. apply run_inv; [exact inv_empty|exact Hok]. Qed.
 
 Lemma perm_hyps : forall (l fs : list mfile) L, Permutation l fs ->
@@ -520,7 +520,7 @@ Proof.
 Qed.
 
 Theorem resolve_reachable : forall st L p l,
-  reachable st -> glatest st = Some L -> ascii_classified p -> ~ stale p st -> Permutation l (files st) ->
+  reachable_clean st -> glatest st = Some L -> ascii_classified p -> ~ stale p st -> Permutation l (files st) ->
   (exists name, resolve p (map entry_of l) = RRet (Some (fver L, name)) /\ codes name = codes (fname L))
   /\ refresh_of p l = RfMeta (fver L) L
   /\ In L (files st) /\ fcom L = true /\ fsnaps L = gacked st.
@@ -537,7 +537,7 @@ Qed.
 
 (* whatever the pointer says -- stale contents included -- resolution only ever yields a published file *)
 Theorem never_uncommitted : forall st p l v name,
-  reachable st -> Permutation l (files st) ->
+  reachable_clean st -> Permutation l (files st) ->
   resolve p (map entry_of l) = RRet (Some (v, name)) ->
   exists f, In f (files st) /\ name_eqb (fname f) name = true /\ fcom f = true.
 Proof.
@@ -569,9 +569,9 @@ Proof.
   pose proof (refresh_nonempty fs p Hwf Hne) as H. destruct (refresh_of p fs); [reflexivity|contradiction|reflexivity].
 Qed.
 
-(* ... in particular over every reachable store with a committed version *)
+(* ... in particular over every reachable_clean store with a committed version *)
 Theorem no_reinit_reachable : forall st p id t pos uuid o,
-  reachable st -> files st <> [] ->
+  reachable_clean st -> files st <> [] ->
   let st' := step (step st (EDamage p)) (ECreate id t pos uuid o) in
   files st' = files st /\ glatest st' = glatest st /\ gacked st' = gacked st /\ ptr st' = p.
 Proof.
@@ -588,7 +588,7 @@ Proof.
   - rewrite IH. unfold run. tauto.
 Qed.
 
-Lemma reachable_extend : forall st h, reachable st -> ok_history st h -> reachable (run st h).
+Lemma reachable_extend : forall st h, reachable_clean st -> ok_history st h -> reachable_clean (run st h).
 Proof.
   intros st h [h0 [Hok ->]] Hh. exists (h0 ++ h). split.
   - apply ok_history_app. split; assumption.
@@ -597,9 +597,9 @@ Qed.
 
 (* after any non-stale damage the table stays writable and a commit extends exactly the acknowledged history *)
 Theorem usable_after_damage : forall st L p id t pos sid,
-  reachable st -> glatest st = Some L -> ascii_classified p -> ~ stale p st -> wf_id id = true -> printable (fver L + 1) = true ->
+  reachable_clean st -> glatest st = Some L -> ascii_classified p -> ~ stale p st -> wf_id id = true -> printable (fver L + 1) = true ->
   let st' := run st [EDamage p; ECommit id t pos sid Ok] in
-  reachable st'
+  reachable_clean st'
   /\ exists L', glatest st' = Some L' /\ fver L' = fver L + 1 /\ fsnaps L' = gacked st ++ [sid]
                /\ gacked st' = gacked st ++ [sid] /\ fuuid L' = fuuid L
                /\ ptr st' = Some (Some (fname L')) /\ In L' (files st') /\ fcom L' = true.
@@ -660,13 +660,13 @@ Proof.
 Qed.
 
 Definition resolve_full : Prop := forall st L p l,
-  reachable st -> glatest st = Some L -> ascii_classified p -> Permutation l (files st) ->
+  reachable_clean st -> glatest st = Some L -> ascii_classified p -> Permutation l (files st) ->
   exists name, resolve p (map entry_of l) = RRet (Some (fver L, name)) /\ codes name = codes (fname L).
 
 Theorem resolve_full_refuted : ~ resolve_full.
 Proof.
   intro H. destruct stale_witness as [L [EL [Hv [_ Hr]]]].
-  assert (HR : reachable (run empty_store stale_history)).
+  assert (HR : reachable_clean (run empty_store stale_history)).
   { exists stale_history. split; [exact stale_history_ok|reflexivity]. }
   destruct (H _ L stale_pointer _ HR EL (rendered_pointer_classified 1 (wid 1)) (Permutation_refl _)) as [name [Hn _]].
   unfold listing in Hr. rewrite Hr in Hn. inversion Hn as [[Hver Hname]]. rewrite Hv in Hver. discriminate Hver.
@@ -682,9 +682,6 @@ Proof.
 Qed.
 
 (* ------------------------------------------------------------------ ties: same version, older mtime never wins *)
-(* f ranks below L for recovery: lower version, or the same version with a strictly older mtime *)
-Definition below (f L : mfile) : Prop := fver f < fver L \/ (fver f = fver L /\ (fmt f < fmt L)%Z).
-
 Lemma arec_below : forall fs best L,
   (forall f, In f fs -> f = L \/ below f L) ->
   (best = None \/ best = Some L \/ exists b, best = Some b /\ below b L) ->
